@@ -197,6 +197,11 @@ impl ArenaAllocator for ChunkAllocator {
         self.replace_chain(new_chain);
         self.current_ptr.set(current_ptr);
     }
+
+    #[cfg(starlark_verif)]
+    fn verif_leak(&mut self) {
+        mem::forget(mem::take(self));
+    }
 }
 
 #[cfg(test)]
